@@ -1,6 +1,85 @@
-(* Properties_C05.v -- property theorems only (placeholder until the proofs land). *)
-From SC Require Import Base Cfg Comb ModStr ModMem.
+(* Properties_C05.v -- C05: every violation reported exactly once with the returned code
+   Only theorem statements, each closed by [exact <lemma>], with Print Assumptions beneath. *)
+From Coq Require Import List ZArith Lia Bool.
+From SC Require Import Base Wp Cfg Comb CombProofs CopySpec ModStr ModMem ProofsStr ProofsMem SpecStr SpecMem PropStr FnProps PropDefs.
 From SC.Gen Require Import Consts.
+Import ListNotations.
+Local Open Scope Z_scope.
+
+(* link from the wp statements below to executions: for every allocation-failure oracle,
+   the result and final memory of [run] satisfy the postcondition *)
+Theorem C05_wp_sound : forall (A : Type) (fail : nat -> bool) (p : prog A) st Q,
+  wp p (wm st) Q -> let '(a, st') := run fail p st in Q a (wm st').
+Proof. exact (@wp_run). Qed.
+Print Assumptions C05_wp_sound.
+
+Theorem C05_strcpy_s : forall c d dmax s destbos, 0 <= dmax -> (destbos = BOS_UNKNOWN \/ 1 <= destbos) -> C05_holds HStr (strcpy_s c d dmax s destbos).
+Proof. intros. apply C05_from_hspec. exact (strcpy_s_hspec c d dmax s destbos H H0). Qed.
+Print Assumptions C05_strcpy_s.
+Theorem C05_strcat_s : forall c d dmax s destbos, 0 <= dmax -> (destbos = BOS_UNKNOWN \/ 1 <= destbos) -> C05_holds HStr (strcat_s c d dmax s destbos).
+Proof. intros. apply C05_from_hspec. exact (strcat_s_hspec c d dmax s destbos H H0). Qed.
+Print Assumptions C05_strcat_s.
+Theorem C05_wcscpy_s : forall c d dmax s destbos, C05_holds HStr (wcscpy_s c d dmax s destbos).
+Proof. intros. apply C05_from_hspec. exact (wcscpy_s_hspec c d dmax s destbos). Qed.
+Print Assumptions C05_wcscpy_s.
+Theorem C05_strncpy_s : forall c d dmax s slen destbos srcbos, 0 <= dmax -> (destbos = BOS_UNKNOWN \/ 1 <= destbos) -> n_region_ok c dmax slen destbos srcbos -> C05_holds HStr (strncpy_s c d dmax s slen destbos srcbos).
+Proof. intros. apply C05_from_hspec. exact (strncpy_s_hspec c d dmax s slen destbos srcbos H H0 H1). Qed.
+Print Assumptions C05_strncpy_s.
+Theorem C05_strncat_s_except : forall c d dmax s slen destbos srcbos, 0 <= dmax -> (destbos = BOS_UNKNOWN \/ 1 <= destbos) -> n_region_ok c dmax slen destbos srcbos -> slen <> 0 -> C05_holds HStr (strncat_s c d dmax s slen destbos srcbos).
+Proof. intros. apply C05_from_hspec. exact (strncat_s_hspec c d dmax s slen destbos srcbos H H0 H1 H2). Qed.
+Print Assumptions C05_strncat_s_except.
+(* known finding strncat_s-slen0-handler: slen = 0 on a terminated dest reports code 0 and returns EOK *)
+Theorem C05_strncat_s_slen0_refuted : exists c d dmax s slen destbos srcbos m,
+  let '(r, _, tr) := exec (strncat_s c d dmax s slen destbos srcbos) m in r = EOK /\ handlers tr = [(HStr, 0)].
+Proof. exists cfg_default, 1000, 4, 2000, 0, BOS_UNKNOWN, BOS_UNKNOWN, (fun _ => 0). vm_compute. split; reflexivity. Qed.
+Print Assumptions C05_strncat_s_slen0_refuted.
+(* known finding: slen exceeds a known source size while the dest size is unknown: two reports *)
+Theorem C05_strncpy_s_srcbos_refuted : exists c d dmax s slen destbos srcbos m,
+  let '(r, _, tr) := exec (strncpy_s c d dmax s slen destbos srcbos) m in handlers tr = [(HStr, ESLEMAX); (HStr, EOVERFLOW)] /\ r = EOVERFLOW.
+Proof. exists cfg_default, 1000, 16, 2000, 10, BOS_UNKNOWN, 4, (fun _ => 97). vm_compute. split; reflexivity. Qed.
+Print Assumptions C05_strncpy_s_srcbos_refuted.
+Theorem C05_strnlen_s : forall c str smax bos, hspec (fun hs r => (hs = [] \/ (r = 0 /\ exists code, code <> 0 /\ hs = [(HStr, code)]))) [] (strnlen_s c str smax bos).
+Proof. exact strnlen_s_hspec. Qed.
+Print Assumptions C05_strnlen_s.
+Theorem C05_memcpy_s : forall c d dmax s slen destbos srcbos, C05_holds HMem (memcpy_s c d dmax s slen destbos srcbos).
+Proof. intros. apply C05_from_hspec. apply mem_copy_gen_hspec. intro X; vm_compute in X; discriminate X. Qed.
+Print Assumptions C05_memcpy_s.
+Theorem C05_memmove_s : forall c d dmax s slen destbos srcbos, C05_holds HMem (memmove_s c d dmax s slen destbos srcbos).
+Proof. intros. apply C05_from_hspec. apply mem_copy_gen_hspec. intro X; vm_compute in X; discriminate X. Qed.
+Print Assumptions C05_memmove_s.
+Theorem C05_memcpy16_s : forall c d dmax s slen destbos srcbos, C05_holds HMem (memcpy16_s c d dmax s slen destbos srcbos).
+Proof. intros. apply C05_from_hspec. apply mem_copy_gen_hspec. intro X; vm_compute in X; discriminate X. Qed.
+Print Assumptions C05_memcpy16_s.
+Theorem C05_memmove16_s : forall c d dmax s slen destbos srcbos, C05_holds HMem (memmove16_s c d dmax s slen destbos srcbos).
+Proof. intros. apply C05_from_hspec. apply mem_copy_gen_hspec. intro X; vm_compute in X; discriminate X. Qed.
+Print Assumptions C05_memmove16_s.
+Theorem C05_memcpy32_s : forall c d dmax s slen destbos srcbos, C05_holds HMem (memcpy32_s c d dmax s slen destbos srcbos).
+Proof. intros. apply C05_from_hspec. apply mem_copy_gen_hspec. intro X; vm_compute in X; discriminate X. Qed.
+Print Assumptions C05_memcpy32_s.
+Theorem C05_memmove32_s : forall c d dmax s slen destbos srcbos, C05_holds HMem (memmove32_s c d dmax s slen destbos srcbos).
+Proof. intros. apply C05_from_hspec. apply mem_copy_gen_hspec. intro X; vm_compute in X; discriminate X. Qed.
+Print Assumptions C05_memmove32_s.
+Theorem C05_memset_s : forall c d dmax v n destbos, C05_holds HMem (memset_s c d dmax v n destbos).
+Proof. intros. apply C05_from_hspec. exact (memset_s_hspec c d dmax v n destbos). Qed.
+Print Assumptions C05_memset_s.
+Theorem C05_memzero_s : forall c d len destbos, C05_holds HMem (memzero_s c d len destbos).
+Proof. intros. apply C05_from_hspec. exact (memzerow_s_hspec c 1 d len destbos). Qed.
+Print Assumptions C05_memzero_s.
+Theorem C05_memzero16_s : forall c d len destbos, C05_holds HMem (memzero16_s c d len destbos).
+Proof. intros. apply C05_from_hspec. exact (memzerow_s_hspec c 2 d len destbos). Qed.
+Print Assumptions C05_memzero16_s.
+Theorem C05_memzero32_s : forall c d len destbos, C05_holds HMem (memzero32_s c d len destbos).
+Proof. intros. apply C05_from_hspec. exact (memzerow_s_hspec c 4 d len destbos). Qed.
+Print Assumptions C05_memzero32_s.
+(* a size above the RSIZE limit is rejected before dest or src is touched: the program is the bare report *)
+Theorem C05_strcpy_s_rsize_untouched : forall c d dmax s, d <> 0 -> 0 < dmax -> rmax_str c < dmax ->
+  strcpy_s c d dmax s BOS_UNKNOWN = fail_str ESLEMAX.
+Proof. intros c d dmax s Hd H0 Hr. unfold strcpy_s, chk_dest_str.
+  replace (d =? 0) with false by (symmetry; apply Z.eqb_neq; lia).
+  replace (dmax =? 0) with false by (symmetry; apply Z.eqb_neq; lia).
+  rewrite Z.eqb_refl. replace (rmax_str c <? dmax) with true by (symmetry; apply Z.ltb_lt; lia). reflexivity. Qed.
+Print Assumptions C05_strcpy_s_rsize_untouched.
+
 Theorem C05_cfg_repo_wf : wf_cfg cfg_repo.
 Proof. exact wf_cfg_repo. Qed.
 Print Assumptions C05_cfg_repo_wf.
